@@ -157,3 +157,14 @@ Print Assumptions C04_auth_tail_original_or_forgery.
 Print Assumptions C04_unauth_truncated.
 Print Assumptions C04_auth_truncated.
 Print Assumptions C04_D2_refuted.
+
+(* ---------- Tie A, decision logic (tools/src2v2.py -> gen/Src2.v): the two fail-safe mode setters select different modes; the mode switch of the fail-safe decryptor ---------- *)
+From MLA Require SrcTie2Events.
+Check SrcTie2Events.failsafe_mode_setters.
+Theorem C04_tie_failsafe_mode_setters : ltac:(let t := type of SrcTie2Events.failsafe_mode_setters in exact t).
+Proof. exact SrcTie2Events.failsafe_mode_setters. Qed.
+Print Assumptions C04_tie_failsafe_mode_setters.
+Check SrcTie2Events.EV_enc_fs_read_shape.
+Theorem C04_tie_EV_enc_fs_read_shape : ltac:(let t := type of SrcTie2Events.EV_enc_fs_read_shape in exact t).
+Proof. exact SrcTie2Events.EV_enc_fs_read_shape. Qed.
+Print Assumptions C04_tie_EV_enc_fs_read_shape.
